@@ -2,7 +2,8 @@
 # scratch-check.sh <tree> <daemonsim args...>
 # Runs daemonsim against ANOTHER copy of the statime sources (a patched scratch worktree,
 # a mutant) without touching /repo, /verif/evidence or /verif/replays:
-#   * copies /verif/sim/{vcommon,ptpsim} and /verif/daemonsim to a scratch directory,
+#   * copies /verif/sim/{vcommon,ptpsim}, /verif/expsim/simtokio (the tokio facade) and /verif/daemonsim
+#     to a scratch directory,
 #   * rewrites every "/repo" path in the copied manifests / build scripts to <tree>,
 #   * builds there (own target dir; SCRATCH_TARGET=<dir> keeps and reuses one across calls),
 #   * runs `daemonsim <args>` with VERIF_OUT_ROOT pointing into the scratch directory
@@ -17,17 +18,18 @@ case "$TREE" in /repo|/repo/*|/verif|/verif/*) echo "scratch tree must live outs
 if [ -n "${SCRATCH_DIR:-}" ]; then
   S="$SCRATCH_DIR"; KEEP_SCRATCH=1
   case "$(readlink -m "$S")" in /repo|/repo/*|/verif|/verif/*) echo "scratch dir must live outside /repo and /verif"; exit 2;; esac
-  rm -rf "$S/sim" "$S/daemonsim" "$S/out"
+  rm -rf "$S/sim" "$S/daemonsim" "$S/expsim" "$S/out"
 else
   S="$(mktemp -d /tmp/daemonsim-scratch-run.XXXXXX)"
 fi
 trap '[ -n "${KEEP_SCRATCH:-}" ] || rm -rf "$S"' EXIT
-mkdir -p "$S/sim" "$S/daemonsim" "$S/out"
+mkdir -p "$S/sim" "$S/daemonsim" "$S/expsim" "$S/out"
+cp -r /verif/expsim/simtokio "$S/expsim/"
 cp -r /verif/sim/vcommon /verif/sim/ptpsim /verif/sim/Cargo.toml /verif/sim/Cargo.lock "$S/sim/" 2>/dev/null
 ( cd /verif/daemonsim && cp -r Cargo.toml Cargo.lock .cargo simsock simclock simrand shadow-statime-linux daemonsim "$S/daemonsim/" )
 TARGET="${SCRATCH_TARGET:-$S/target}"
 grep -rlE '/repo|/verif/' "$S" --include=Cargo.toml --include=build.rs --include=config.toml | while read -r f; do
-  sed -i -e "s#/repo/#$TREE/#g" -e "s#\"/repo\"#\"$TREE\"#g" -e "s#/verif/sim/#$S/sim/#g" -e "s#/verif/target/daemonsim#$TARGET#g" "$f"
+  sed -i -e "s#/repo/#$TREE/#g" -e "s#\"/repo\"#\"$TREE\"#g" -e "s#/verif/sim/#$S/sim/#g" -e "s#/verif/expsim/#$S/expsim/#g" -e "s#/verif/target/daemonsim#$TARGET#g" "$f"
 done
 cd "$S/daemonsim" || exit 2
 if ! cargo build --release --offline >"$S/build.log" 2>&1; then grep -E "^error" -A12 "$S/build.log" | head -60; echo "HARNESS-ERROR: scratch build failed"; exit 2; fi
